@@ -3,6 +3,7 @@ package codec
 import (
 	"encoding/base64"
 	"fmt"
+	"math"
 	"time"
 
 	"github.com/pentops/j5/j5types/date_j5t"
@@ -223,9 +224,15 @@ func (enc *encoder) encodeScalarField(scalar j5reflect.ScalarField) error {
 		enc.addUint64(vt)
 		return nil
 	case float32:
+		if math.IsNaN(float64(vt)) || math.IsInf(float64(vt), 0) {
+			return fmt.Errorf("float value %v has no JSON representation", vt)
+		}
 		enc.addFloat(float64(vt), 32)
 		return nil
 	case float64:
+		if math.IsNaN(vt) || math.IsInf(vt, 0) {
+			return fmt.Errorf("float value %v has no JSON representation", vt)
+		}
 		enc.addFloat(vt, 64)
 		return nil
 	case []byte:
